@@ -10,9 +10,9 @@ from core import Case, enc_call, guard, s2c
 ID = "C18"
 PROOF_FILE = "Properties/C18.v"
 THEOREMS = ["C18_argsort_perm", "C18_digit_roundtrip", "C18_position_roundtrip", "C18_digit_total", "C18_bijection",
-            "C18_code_is_rank_selection", "C18_finite_sweep", "C18_table", "C18_table_is_perm_table"]
+            "C18_code_is_rank_selection", "C18_finite_sweep", "C18_table", "C18_table_is_perm_table", "C18_numpy_table"]
 CONE = ["Proofs/ShuffleProofs.v", "Coder.v", "Shuffle.v", "CoderSpec.v", "Py.v"]
-MODEL_FUNCTIONS = ["encode (digit -> arc through argsort)", "decode (arc -> digit)"]
+MODEL_FUNCTIONS = ["encode (digit -> arc through argsort)", "decode (arc -> digit)", "create_random_shuffles (table of a seed: MT19937 model of numpy.random)"]
 RULE = ("digit map: ALL 24 permutations x ALL 11 live-arc patterns with two or more arcs x every digit, normal mode, and the "
         "patterns of size 2 and 4 in fast mode, encode then decode on a one-vertex graph (exhaustive in both tiers); table: "
         "observed lengths 1..6 x 50 seeds (thorough 500): shape, every row a permutation of 0..3, two calls with the same "
@@ -23,7 +23,9 @@ TRUSTED_BASE = [
     "extraction (ExtrOcamlBasic only) + coq/extract/driver.ml + OCaml 4.13.1",
     "correspondence harness harness/core.py, harness/props/c18.py",
     "NOT modelled (observed at run time only): numpy.random seed/shuffle (Mersenne Twister stream, Fisher-Yates), hence "
-    "'same seed gives same table' and 'no effect other than on the global random state' are run-time checks, not theorems",
+    "'no effect other than on the global random state' is a run-time check; 'same seed gives same table' holds of the model by "
+    "construction (the table is a function of the seed: coq/MT19937.v) and the table itself is compared with the model's for every "
+    "sampled seed -- that NumPy's legacy generator IS MT19937 with this seeding / interval / shuffle is an assumption checked that way",
     "modelled, not verified: numpy argsort on <= 4 distinct keys, fancy indexing",
 ]
 ASSUMPTIONS = ["table rows are permutations of 0..3 for the rank-selection reading; the round trip holds for any keys"]
@@ -109,4 +111,7 @@ def build(stream, p):
         if k == 2 and seed == 2021 and a.tolist() != DOCTEST_2021:
             return "seed 2021 does not give the documented table"
         return None
-    return Case(stream, p, None, lambda: guard(run, lambda x: []), oracle, nontrivial=k >= 2, tags=["k=%d" % k])
+    # the model: NumPy's MT19937 seeded with `seed`, its 32-bit draws, random_interval and the in-place shuffle (coq/MT19937.v)
+    call = enc_call(55, k, seed) if 0 <= seed < 2 ** 32 else None
+    return Case(stream, p, call, lambda: guard(run, lambda x: [[int(v) for v in x[0].reshape(-1)]]), oracle, nontrivial=k >= 2,
+                tags=["k=%d" % k])
